@@ -102,7 +102,7 @@ PROPS['C17'] = dict(
 PROPS['C15'] = dict(
     level='other', harness='h15', min_t1=0,
     explanation='T1 (unbounded): Compiler._compile_pivot_by - both references resolve to selected targets (1-based position or name), they are distinct, the second is a GROUP BY column, rejected exactly otherwise. Bounded (T3): Connection.execute with PIVOT BY against the reshaping defined by the statement (row per first key ascending, block per second key ascending, naming, datatypes, NULL fill, un-pivot identity) on full / sparse / duplicate / single / empty tables with the pivot columns in every target position, by name and by position.',
-    trusted_base=[], assumptions=['pivot key values are non-NULL and mutually comparable (the statement: grouped by exactly the two pivot columns)'],
+    trusted_base=[], assumptions=['non-NULL pivot key values of one column are mutually comparable; NULL is a key value of its own, sorted first'],
 )
 
 PROPS['C11'] = dict(
